@@ -56,6 +56,7 @@ CONSTANTS
   ALLCH = {allch}
   Depth = {depth}
   GEN = {gen}
+  ALS = {als}
 INVARIANTS Bounded Emit
 PROPERTIES ErrIsAtomicStep MonotoneStep EgressForwardStep XoverForwardStep
 """
@@ -158,6 +159,38 @@ def replay_one(c, binp):
         print("replay file carries no re-runnable input:", json.dumps(rp)[:1000])
 
 
+def binding_selftest(c, binp):
+    """S6: a recorded trace is accepted by Trace_PathHeader; corrupting one logged field or dropping one
+    event makes TLC reject it.  (If the current code does not follow the I-spec the self-test is skipped
+    with a DRIFT line: it needs a conforming trace.)"""
+    ev = os.path.join(c.work, "self.ndjson")
+    rc, so = c.sh([binp, "record", ev, os.path.join(c.work, "self.json"), "c11"], env={"VERIF_RUNS": 12})
+    if rc != 0:
+        c.fail_tool("binding self-test: record failed rc=%s" % rc)
+    lines = [json.loads(l) for l in open(ev)]
+    idx = [i for i, e in enumerate(lines) if e.get("ev") == "op" and e["op"] == "egr" and e["res"]["k"] == "ok"
+           and i + 1 < len(lines) and lines[i + 1].get("ev") == "op"]
+    if not idx:
+        c.drift("binding self-test skipped: no successful advance_egress followed by another call was recorded")
+        return
+    i = idx[len(idx) // 2]
+    cor = [json.loads(json.dumps(e)) for e in lines]
+    cor[i]["after"]["ch"] = (cor[i]["after"]["ch"] + 1) % 64
+    variants = {"orig": lines, "corrupt-field": cor, "drop-event": lines[:i] + lines[i + 1:]}
+    for name, ls in variants.items():
+        pth = os.path.join(c.work, "self_%s.ndjson" % name)
+        write_ndjson(pth, ls)
+        r = c.tlc(SD, "Trace_PathHeader", mode="trace", env={"TRACE": pth}, timeout=1200, expect_violation=True)
+        accepted = r.ok and not r.postcondition_failed and not r.violated
+        if name == "orig" and not accepted:
+            c.drift("binding self-test skipped: the recorded self-test trace is not accepted by Trace_PathHeader (%s)" % ",".join(r.violated or ["postcondition"]))
+            c.cov["binding_selftest"] = "skipped (trace of the current code rejected)"
+            return
+        if name != "orig" and accepted:
+            c.fail_tool("binding self-test: trace variant '%s' was accepted - the trace spec does not constrain the code" % name)
+    c.cov["binding_selftest"] = "orig accepted; corrupt-field and drop-event rejected"
+
+
 def want_key(key):
     """C11 owns the advance API and the journeys; reversal/view-model monitors belong to C12."""
     if key.startswith(("Monotone:", "Authentic", "Tamper")):
@@ -179,34 +212,40 @@ def run(c):
         "raw bytes are written and re-read by the harness independently of sciparse's encoder",
         "TLC 1.8.0, CommunityModules Json/IOUtils/Bitwise",
     ]
+    binding_selftest(c, binp)
     c.cov["rule"] = ("cell = (segment-length table, CurrINF, CurrHF, cons-dir vector, alerts) x 3 calls x 4 validator scripts; "
                      "non-trivial cell = pointers not both at 0; journey: non-trivial = more than one segment or tampered; "
                      "trace runs: non-trivial = any deviation from a plain forward walk")
 
     # ---- 1. API level --------------------------------------------------------------------------------
-    # every cell x every call (depth 1) with generation; call sequences on a second run
-    p = cfg(c, "adv.cfg", ADV_TMPL.format(chmod=64, fixwrap="TRUE", maxlen=3, allch="TRUE" if thorough else "FALSE",
-                                          depth=1, gen="TRUE"))
-    r = c.tlc(SD, "MC_PathAdvance", cfg=p, timeout=6000)
-    for inv in r.violated:
-        c.violation("spec:%s" % inv, "design-level: %s violated on MC_PathAdvance; see %s" % (inv, r.out_path), {"tlc_out": r.out_path})
-    if r.ok:
-        c.require_coverage(r, ["Call"])
-    cells = c.printed_json(r, "CELL")
-    if not cells:
-        c.fail_tool("generation run printed no cells")
+    # every cell x every call (depth 1) with generation; call sequences on a second run.
+    # thorough: every CurrHF value 0..63 with alerts unset + the quick pointer range with alerts set
+    BOTH = "{TRUE, FALSE}"
+    gens = [("adv.cfg", "FALSE", BOTH)] if not thorough else [("adv_allch.cfg", "TRUE", "{FALSE}"), ("adv_al.cfg", "FALSE", "{TRUE}")]
+    cells = []
+    for name, allch, als in gens:
+        p = cfg(c, name, ADV_TMPL.format(chmod=64, fixwrap="TRUE", maxlen=3, allch=allch, depth=1, gen="TRUE", als=als))
+        r = c.tlc(SD, "MC_PathAdvance", cfg=p, timeout=6000)
+        for inv in r.violated:
+            c.violation("spec:%s" % inv, "design-level: %s violated on MC_PathAdvance; see %s" % (inv, r.out_path), {"tlc_out": r.out_path})
+        if r.ok:
+            c.require_coverage(r, ["Call"])
+        got = c.printed_json(r, "CELL")
+        if not got:
+            c.fail_tool("generation run printed no cells")
+        cells += got
     for d in cells:
         d["kind"] = "cell"
     rs = c.tlc(SD, "MC_PathAdvance", cfg=cfg(c, "adv_seq.cfg", ADV_TMPL.format(
-        chmod=64, fixwrap="TRUE", maxlen=3 if thorough else 2, allch="FALSE", depth=4 if thorough else 3, gen="FALSE")), timeout=6000, coverage=False)
+        chmod=64, fixwrap="TRUE", maxlen=3 if thorough else 2, allch="FALSE", depth=3, gen="FALSE", als=BOTH)), timeout=6000, coverage=False)
     for inv in rs.violated:
         c.violation("spec:%s:sequences" % inv, "design-level: %s violated on call sequences; see %s" % (inv, rs.out_path), {"tlc_out": rs.out_path})
     r0 = c.tlc(SD, "MC_PathAdvance", cfg=cfg(c, "adv_wrap.cfg", ADV_TMPL.format(
-        chmod=4, fixwrap="FALSE", maxlen=3, allch="TRUE", depth=1, gen="FALSE")), expect_violation=True, coverage=False)
+        chmod=4, fixwrap="FALSE", maxlen=3, allch="TRUE", depth=1, gen="FALSE", als=BOTH)), expect_violation=True, coverage=False)
     if not ({"MonotoneStep", "EgressForwardStep", "Bounded"} & set(r0.violated)):
         c.fail_tool("oracle self-check failed: a wrapping 2-bit CurrHF no longer violates Monotone in the model")
     r1 = c.tlc(SD, "MC_PathAdvance", cfg=cfg(c, "adv_smallptr.cfg", ADV_TMPL.format(
-        chmod=4, fixwrap="TRUE", maxlen=3, allch="TRUE", depth=2 if thorough else 1, gen="FALSE")), coverage=False, timeout=6000)
+        chmod=4, fixwrap="TRUE", maxlen=3, allch="TRUE", depth=2 if thorough else 1, gen="FALSE", als=BOTH)), coverage=False, timeout=6000)
     for inv in r1.violated:
         c.violation("spec:%s:small-currhf" % inv, "design-level: %s violated with a 2-bit CurrHF field; see %s" % (inv, r1.out_path), {"tlc_out": r1.out_path})
 
